@@ -114,27 +114,36 @@ func (r *RibEntry) pruneIfEmpty() {
 	}
 }
 
+// updateNexthopsEnc recomputes the FIB next hops of this entry and of every entry
+// below it, and installs all of them in the FIB as one atomic step, so that a
+// concurrent lookup never sees a cleared or half-filled next hop list.
 func (r *RibEntry) updateNexthopsEnc() {
+	updates := make([]FibNextHopsUpdate, 0)
+	r.collectNexthopUpdates(&updates)
+	FibStrategyTable.ReplaceNextHopsEnc(updates)
+}
+
+func (r *RibEntry) collectNexthopUpdates(updates *[]FibNextHopsUpdate) {
 	// A node without a name only fills the path to a longer prefix: it never
 	// had routes and owns no FIB entry (a nil name would address the root entry)
 	if r.Name != nil {
-		r.updateOwnNexthopsEnc()
+		*updates = append(*updates, r.ownNexthopsUpdate())
 	}
 
-	// Trigger update for all children for inheritance
+	// Children inherit from this entry
 	for child := range r.children {
-		child.updateNexthopsEnc()
+		child.collectNexthopUpdates(updates)
 	}
 }
 
-// updateOwnNexthopsEnc recomputes the FIB next hops of this entry only.
-func (r *RibEntry) updateOwnNexthopsEnc() {
-	FibStrategyTable.ClearNextHopsEnc(r.Name)
+// ownNexthopsUpdate computes the FIB next hops of this entry only.
+func (r *RibEntry) ownNexthopsUpdate() FibNextHopsUpdate {
+	update := FibNextHopsUpdate{Name: r.Name}
 
 	// An entry without routes of its own has no FIB entry: names below it
 	// match the next shorter prefix that has routes
 	if len(r.routes) == 0 {
-		return
+		return update
 	}
 
 	// All routes including parents if needed
@@ -165,10 +174,11 @@ func (r *RibEntry) updateOwnNexthopsEnc() {
 		}
 	}
 
-	// Add "flattened" set of nexthops
+	// The "flattened" set of nexthops
 	for nexthop, cost := range minCostRoutes {
-		FibStrategyTable.InsertNextHopEnc(r.Name, nexthop, cost)
+		update.NextHops = append(update.NextHops, FibNextHopEntry{Nexthop: nexthop, Cost: cost})
 	}
+	return update
 }
 
 // AddRoute adds or updates a RIB entry for the specified prefix.
@@ -260,16 +270,27 @@ func (r *RibTable) CleanUpFace(faceId uint64) {
 	r.mutex.Lock()
 	defer r.mutex.Unlock()
 
-	r.RibEntry.cleanUpFace(faceId)
+	// First remove the face's routes everywhere, then install the resulting
+	// next hops of the whole tree in the FIB as one atomic step, so that a
+	// concurrent lookup sees the face either everywhere or nowhere.
+	changed := make([]*RibEntry, 0)
+	r.RibEntry.removeRoutesOfFace(faceId, &changed)
+	if len(changed) == 0 {
+		return
+	}
+	r.RibEntry.updateNexthopsEnc()
+	for _, entry := range changed {
+		entry.pruneIfEmpty()
+	}
 }
 
-func (r *RibEntry) cleanUpFace(faceId uint64) {
-	// Recursively clean children
+// removeRoutesOfFace removes every route of the face from this entry and the
+// entries below it (there is one route per origin) and collects the entries it changed.
+func (r *RibEntry) removeRoutesOfFace(faceId uint64, changed *[]*RibEntry) {
 	for child := range r.children {
-		child.cleanUpFace(faceId)
+		child.removeRoutesOfFace(faceId, changed)
 	}
 
-	// Remove every route of the face (there is one per origin)
 	kept := make([]*Route, 0, len(r.routes))
 	for _, route := range r.routes {
 		if route.FaceID == faceId {
@@ -278,12 +299,10 @@ func (r *RibEntry) cleanUpFace(faceId uint64) {
 			kept = append(kept, route)
 		}
 	}
-	if len(kept) == len(r.routes) {
-		return
+	if len(kept) != len(r.routes) {
+		r.routes = kept
+		*changed = append(*changed, r)
 	}
-	r.routes = kept
-	r.updateNexthopsEnc()
-	r.pruneIfEmpty()
 }
 
 func (r *RibEntry) HasCaptureRoute() bool {
